@@ -9,7 +9,10 @@
     - the cached spectra, the gamma grid, the values of the pdf on the grid are inputs (read back from the
       implementation objects / recorded from its calls);
     - the integrals of the pdf outside the cached range ([scipy.integrate.quad] / [dblquad]) are inputs
-      ([wneu], [wdel], record [tails2]); the harness checks the limits the code hands to quad separately;
+      ([wneu], [wdel], record [tails2]); for the 1-D tails the REGION is part of the model ([tails_on]: the oracle is
+      quad as a function of the parameter vector and the limits, the limits are derived from the grid of the cache the
+      component is integrated over); for the 2-D tails the harness compares the limits the code hands to quad with the
+      documented regions and substitutes independently computed integrals over the documented regions when they differ;
     - every quadrature, weighting, point-mass and mixture formula, the order of the terms, where theta enters,
       what is written to the cache, and which slice of the parameter vector goes where is computed here.
 
